@@ -128,7 +128,8 @@ def gen_world(rng: random.Random, tier: str) -> dict:
         # how the user's arrays lie in memory: C order, Fortran order, or a strided view of a larger buffer
         "layout": rng.choices(["C", "F", "view"], weights=[0.7, 0.18, 0.12])[0],
         "dtype": rng.choices(["float64", "float32", "int64", "readonly"], weights=[0.8, 0.08, 0.06, 0.06])[0],
-        "fs_as": rng.choices(["float", "npfloat"], weights=[0.9, 0.1])[0],
+        # "nd0": a zero-dimensional array, which is what np.load(...)["fs"] or np.asarray(100.0) hands out
+        "fs_as": rng.choices(["float", "npfloat", "nd0"], weights=[0.86, 0.08, 0.06])[0],
         "datasets_as": rng.choices(["list", "tuple"], weights=[0.9, 0.1])[0],
     }
     if kind == "preger":
@@ -189,6 +190,9 @@ def build_setup(world, arrays):
     fs = int(world["fs"]) if world.get("int_fs") and float(world["fs"]).is_integer() else world["fs"]
     if world.get("fs_as") == "npfloat" and not isinstance(fs, int):
         fs = np.float64(fs)
+    elif world.get("fs_as") == "nd0":
+        fs = np.asarray(fs, dtype=float)  # a mutable object: in-place arithmetic on it reaches every holder
+    world["_user_fs"] = fs
     if world["kind"] == "single":
         return SingleSetup(arrays[0], fs=fs)
     # the user's own list objects are handed over, like the arrays
@@ -458,7 +462,7 @@ def gen_op(rng, m: Model, swarm, nalg, prev=(), step=0):
             op["rel"] = round(rng.uniform(0.1, 0.8), 4)
             op["order"] = rng.randint(1, 8)
             op["same_args_as_last"] = rng.random() < 0.3
-            if not op["same_args_as_last"] and rng.random() < 0.7:
+            if not op["same_args_as_last"] and not swarm.get("no_filter") and rng.random() < 0.7:
                 # absolute cut-off valid for both setups; the setup under test filters with the very same arguments next
                 op["Wn"] = round(op["rel"] * 0.5 * min(m.fs, m.fs0 * 0.5 + 3.0) / 2.0, 6)
                 swarm["_force_filter"] = {"op": "filter", "Wn": op["Wn"], "order": op["order"]}
@@ -655,6 +659,15 @@ def run_case(seed, tier="quick", case=None, known=()):
     if case is None:
         world = gen_world(rng, tier)
         swarm = gen_swarm(rng, tier)
+        if world.get("fs_as") == "nd0":
+            # scipy's own filter design refuses a zero-dimensional array as fs ("must be a single scalar"), so whether
+            # filter_data accepts it is up to the implementation: such worlds decimate, detrend, roll back and add only
+            swarm["w"]["filter"] = 0
+            swarm["no_filter"] = True
+            if swarm.get("echo"):
+                swarm["echo"] = [t.replace("fresh:filter", "fresh:detrend") for t in swarm["echo"]]
+            if all(swarm["w"][k_] == 0 for k_ in ("decimate", "detrend", "rollback", "add")):
+                swarm["w"]["decimate"] = 1.0
         ops_in = None
         nops = swarm["nops"]
     else:
@@ -892,6 +905,8 @@ def run_case(seed, tier="quick", case=None, known=()):
                 stop |= violate("user.mutated", op, step, f"user array {i} changed")
         if user_ref is not None and [[int(c) for c in r] for r in user_ref] != world.get("ref_ind"):
             stop |= violate("user.mutated", op, step, "user reference index list changed")
+        if float(world["_user_fs"]) != float(world["fs"]):
+            stop |= violate("user.mutated", op, step, f"the sampling-frequency object passed by the user changed: {world['_user_fs']!r}")
         for name, alg, h in bound:
             if _hash_handed(getattr(alg, "data", None)) != h:
                 # what an algorithm was handed equals the operations applied up to its addition - and stays so
